@@ -94,12 +94,14 @@ theorem C03_writer_alone (sr : Bool) (held : List Holder) (hex : Excl sr held) (
 
 /-- Which lock a command takes (regenerated facts): write lock for every mutating command and
     get-and-touch, read lock for get / getE; the wrapper calls the wrapped method of the same
-    name; both ports of memproxy share one lock set, and the batch port wraps `L1L2Batch`. -/
+    name; both ports of memproxy share one lock set, the batch port wraps `L1L2Batch`, and what each
+    port's `ListenAndServe` is handed IS the variable the wrapper was assigned to. -/
 theorem C03_lock_modes :
     (∀ n ∈ ["Set", "Add", "Replace", "Append", "Prepend", "Delete", "Touch", "Gat"],
       (lockedFact n).usesLock = true ∧ (lockedFact n).readLock = false) ∧
     (∀ n ∈ ["Get", "GetE"], (lockedFact n).usesLock = true ∧ (lockedFact n).readLock = true) ∧
-    Gen.memproxySharesLockSet = true ∧ Gen.memproxyBatchOrca = "L1L2Batch" := by
+    Gen.memproxySharesLockSet = true ∧ Gen.memproxyBatchOrca = "L1L2Batch" ∧
+    Gen.memproxyMainServesLocked = true ∧ Gen.memproxyBatchServesLocked = true := by
   decide
 
 /-- How the lock set is wired (regenerated facts): both constructors — the one for the main port
